@@ -323,10 +323,14 @@ class Builtins:
     def concat_list(self, cur, src, st):
         """cur ++ elements of the iteration source src, as a list builder (pointwise facts, no z3 lambda)."""
         th = self.th
-        A = th.fresh('cat_arr', th.SeqA)
+        import hashlib
         i = th.fresh('i', th.I)
         s0 = State(dict(st.env), [])
         ev = self.toVal(src.at(i, s0), s0)
+        probe = z3.Int('$i')
+        sig_ = '|'.join(str(z3.simplify(x)) for x in (cur.arr, cur.n, z3.substitute(ev, (i, probe)), src.n))
+        # canonical name: the same concatenation is the same array (a specification can rebuild it)
+        A = z3.Const('cat_arr_' + hashlib.sha1(sig_.encode()).hexdigest()[:12], th.SeqA)
         st.add(src.n >= 0,
                z3.ForAll([i], z3.Implies(z3.And(i >= 0, i < cur.n), z3.Select(A, i) == z3.Select(cur.arr, i))),
                z3.ForAll([i], z3.Implies(z3.And(i >= 0, i < src.n), z3.And(*(s0.pc + [z3.Select(A, cur.n + i) == ev])))))
